@@ -144,7 +144,7 @@ type Check struct {
 // Phase is an extra child process run.
 type Phase struct {
 	Name string
-	Race bool // use the -race binary
+	Race bool   // use the -race binary
 	Tier string // "" = both tiers, else only this tier
 	Run  func(env *Env, res *Result)
 	// Count is how many children (each gets From=i,To=i+1).
@@ -153,7 +153,7 @@ type Phase struct {
 
 var registry = map[string]*Check{}
 
-func Register(c *Check) { registry[c.ID] = c }
+func Register(c *Check)       { registry[c.ID] = c }
 func Lookup(id string) *Check { return registry[id] }
 func IDs() []string {
 	var ids []string
